@@ -195,6 +195,15 @@ def run_invocation(sc, backend, seed, fault=None, schedule=None, clock0=None):
             pe.append(["reset", us(sim.clock), self.index])
             return orig_reset(self)
 
+        orig_sched_shutdown = exmod.TimerScheduler.shutdown
+
+        def sched_shutdown(self):
+            try:
+                return orig_sched_shutdown(self)
+            finally:
+                # execute() reads the fatal / suspend flags right after the scheduler block (no scheduling point between)
+                pe.append(["flags", us(sim.clock)])
+        exmod.TimerScheduler.shutdown = sched_shutdown
         orig_ses = exmod.ConcurrentExecutor.should_execution_suspend
 
         def should_execution_suspend(self):
@@ -244,7 +253,8 @@ def run_invocation(sc, backend, seed, fault=None, schedule=None, clock0=None):
                 name = f"{tag}/{j}"
                 if k == "step":
                     def fn(sctx, a=a, name=name):
-                        res["bodies"] += 1
+                        in_branch = name.startswith("b")     # the concurrency limit concerns the branches of the block, not
+                        res["bodies"] += 1 if in_branch else 0  # code that runs after an early-completed block returned
                         res["max_bodies"] = max(res["max_bodies"], res["bodies"])
                         recorded = sorted(o.status for o in backend.ops.values() if o.name == name and o.status in TERMINAL)
                         res["events"].append(["enter", name, sim.clock, recorded])
@@ -258,7 +268,7 @@ def run_invocation(sc, backend, seed, fault=None, schedule=None, clock0=None):
                                 raise type(a["out"]["err"]["cls"], (Exception,), {})(a["out"]["err"]["msg"])
                             return VALUE_POOL[a["out"]["ok"]]
                         finally:
-                            res["bodies"] -= 1
+                            res["bodies"] -= 1 if in_branch else 0
                             res["running"].discard(name)
                     v = ctx.step(fn, name=name, config=StepConfig(retry_strategy=lambda e, n: RetryDecision.no_retry()))
                     out.append(token_of(v))
@@ -362,6 +372,7 @@ def run_invocation(sc, backend, seed, fault=None, schedule=None, clock0=None):
             exmod.ConcurrentExecutor.execute = orig_execute
             exmod.ConcurrentExecutor._on_task_complete = orig_cb
             exmod.ConcurrentExecutor.should_execution_suspend = orig_ses
+            exmod.TimerScheduler.shutdown = orig_sched_shutdown
             ExecutableWithState.reset_to_pending = orig_reset
             exmod.heapq = orig_heapq
             for m, f in orig_status.items():
@@ -884,6 +895,7 @@ def derive_par_actions(pevents):
     evs = commute_timer(pevents[pevents.index(start) + 1:])
     i = 0
     n_sub = 0
+    woke = False
     pending_resubmit = None
     # The timer heap orders equal resume instants by insertion, and instants that differ only in the last bits of the
     # float by value; rounding them to microseconds would make such pairs look equal.  Instants falling into the same
@@ -901,7 +913,7 @@ def derive_par_actions(pevents):
     while i < len(evs):
         e = evs[i]
         t = e[1]
-        if e[0] in ("begin", "end", "finish", "timer.pop", "reset", "exec.end", "cancel", "submit", "refresh.fail") and t > last_t:
+        if e[0] in ("begin", "end", "finish", "timer.pop", "reset", "exec.end", "cancel", "submit", "refresh.fail", "flags") and t > last_t:
             acts.append(["tick", (t - last_t) * 1000])      # the model's clock runs in nanoseconds (see resume_ns)
             last_t = t
         if e[0] in ("timer.pop", "exec.end") and pending_resubmit is not None:
@@ -933,8 +945,14 @@ def derive_par_actions(pevents):
         elif e[0] == "submit" and e[2] == "thread" and pending_resubmit is not None:
             acts.append(["resubmit", pending_resubmit, True])
             pending_resubmit = None
-        elif e[0] == "exec.end":
+        elif e[0] == "flags":
             acts.append(["wake"])
+            woke = True
+        elif e[0] == "exec.end":
+            if not woke:
+                acts.append(["wake"])
+            if e[2] == "result":
+                acts.append(["snapshot"])
             end = e
             break
         i += 1
